@@ -1,4 +1,4 @@
-\* intended design, thorough tier: every initial status mix, 4 mutations
+\* intended design, thorough tier: every initial status mix (Active, Inactive, Suspended), 4 mutations
 SPECIFICATION Spec
 CONSTANTS
   Sizes = {2, 3}
